@@ -22,10 +22,7 @@ import e2_tree
 from e2_metric import IDX, ITEM, TREE, concrete_key, database, kv_models
 
 INLINE = e2_metric.INLINE + [
-    (re.compile(r"^item_leaf::<D>$"), r"^item_leaf$"),
     (re.compile(r"^Reader::<'_, D>::dimensions$"), r"reader::.*::dimensions$"),
-    (re.compile(r"^Key::(item|tree|updated|metadata|version)$"), r"key::.*::{name}$", "-> Key"),
-    (re.compile(r"^NodeId::(item|tree|updated|metadata|version)$"), r"node_id::.*::{name}$"),
     (re.compile(r"^Reader::<'_, D>::iter$"), r"reader::.*::iter$"),
     (re.compile(r"^Writer::<D>::iter$"), r"writer::.*::iter$"),
 ]
